@@ -164,6 +164,11 @@ public:
             return false;
         }
         cands.swap(keep);
+        // values the audit has just confirmed are facts from now on
+        for (auto& c : cands)
+            for (size_t k = 0; k < rows.size() && k < c.k.size(); ++k)
+                if (rows[k].looked && c.k[k].st == LIVE)
+                    c.k[k].inferred = 0;
         if (rr_pending)
         {
             rr_pending = false;
@@ -526,9 +531,11 @@ private:
             }
             else if (*val != e.val)
             {
-                t.insert("C01.value");
+                // "latest successful write" is a fact for single calls (their result was observed) but only an inference
+                // for an element of a range, until an audit has confirmed it
+                t.insert(e.inferred ? "UNATTRIBUTED.range-value" : "C01.value");
                 d += std::string(where) + ": key " + std::to_string(k) + " returned value " + std::to_string(*val) + ", latest write was " +
-                     std::to_string(e.val) + "; ";
+                     std::to_string(e.val) + (e.inferred ? " (written by a range element, unconfirmed)" : "") + "; ";
             }
             else if (cnt_known && cnt && *cnt != expect_cnt)
             {
@@ -645,8 +652,11 @@ private:
                 }
                 case INSR:
                 case INSI:
-                    t.insert("C09.count");
-                    t.insert("C18.count");
+                    // What a range insert returns depends on the intermediate states of its own elements (an earlier
+                    // element may evict a key a later element addresses), which nobody observed: the count alone does
+                    // not say which clause is broken.  The driver re-runs the history with the range expanded into
+                    // single calls under dense audits; only if those conform is it the range form (C18 / C09.count).
+                    t.insert("UNATTRIBUTED.range-result");
                     d += "insert_range returned " + std::to_string(obs.n) + ", specification " + (outs.empty() ? std::string("?") : std::to_string(outs[0].res.n)) + "; ";
                     break;
                 case ERA:
@@ -661,6 +671,7 @@ private:
                     break;
                 case ERAR:
                 case ERAI:
+                    // erasing never evicts: the count is determined by the (pinned) pre-state
                     t.insert("C18.count");
                     d += "erase_range returned " + std::to_string(obs.n) + ", specification " + (outs.empty() ? std::string("?") : std::to_string(outs[0].res.n)) + "; ";
                     break;
@@ -951,7 +962,14 @@ private:
                 if (row.val && live_none)
                 {
                     // reported although absent in every explanation
-                    if (pe.st == LIVE && erased[k])
+                    if (wrote[k] == 2)
+                    {
+                        // a key addressed by this very range insert: the specification has it displaced again by a later
+                        // element, the implementation kept it - a question of victims inside the range (expanded re-run)
+                        t.insert("UNATTRIBUTED.range-presence");
+                        d += "key " + std::to_string(k) + " of the range is resident although the specification has it displaced by a later element; ";
+                    }
+                    else if (pe.st == LIVE && erased[k])
                     {
                         t.insert("C01.ghost");
                         d += "key " + std::to_string(k) + " still found after its erase reported success; ";
@@ -981,6 +999,13 @@ private:
                             t.insert("C19.rejected");
                             d += "a rejected insert changed the value of key " + std::to_string(k) + "; ";
                         }
+                        else if (wrote[k] == 2)
+                        {
+                            // a key addressed by a range insert: whether this element was accepted depends on what the
+                            // earlier elements evicted - left to the expanded re-run
+                            t.insert("UNATTRIBUTED.range-value");
+                            d += "after a range insert key " + std::to_string(k) + " holds value " + std::to_string(*row.val) + ", specification " + std::to_string(e.val) + "; ";
+                        }
                         else if (wrote[k] && pe.st == LIVE && *row.val == pe.val)
                         {
                             t.insert("C09.replace");
@@ -989,7 +1014,7 @@ private:
                         }
                         else
                         {
-                            t.insert("C01.value");
+                            t.insert(e.inferred || pe.inferred ? "UNATTRIBUTED.range-value" : "C01.value");
                             d += "audit: key " + std::to_string(k) + " holds value " + std::to_string(*row.val) + ", latest write was " + std::to_string(e.val) + "; ";
                         }
                     }
@@ -1042,6 +1067,14 @@ private:
                 if (model.ttl())
                     t.insert("C05.early");
                 d += "the key just inserted (" + std::to_string(op.k) + ") is not found; ";
+            }
+            if (!L.empty() && (op.kind == INSR || op.kind == INSI) && t.count("C09.count"))
+            {
+                // the range lost prior residents it had room for: its elements did influence one another after all, so the
+                // count is a consequence of that loss, not an untruthful report
+                t.erase("C09.count");
+                t.erase("C18.count");
+                t.insert("UNATTRIBUTED.range-result");
             }
             bool all_sighted = true;
             for (int k : L)
